@@ -19,7 +19,7 @@ mod tok;
 mod shapes;
 mod talloc;
 
-#[global_allocator]
+#[cfg_attr(not(miri), global_allocator)]
 static GLOBAL: talloc::Tracking = talloc::Tracking;
 
 use std::io::{BufRead, Write};
